@@ -1,7 +1,7 @@
 """C08 - names and operators dispatch to the handler and binding last registered."""
 import itertools, json, os, subprocess
 import core, tlc
-import prattfam as pf, evalfam as ef, enginefam as eng
+import prattfam as pf, evalfam as ef, enginefam as eng, ctxfam
 
 OPS_FILE = os.path.join(tlc.SPEC, "mc", "bigtable.json")
 
@@ -74,6 +74,10 @@ def check(run):
     histories(run, 4 if thorough else 3)
     pf.model_and_replay(run, "user-pairs", pf.pratt_cfg("c08-upairs", lazy=False, source="UPairSource", firstset="UPairSet", table="BigTable"), "C08", "C08", ops_file=OPS_FILE)
     pf.trace_validate(run, "user-ops", 6000 if thorough else 800, run.seed, 0, "C08", "C08", ops_file=OPS_FILE, table="BigTable")
+    run.rules.append("Context API (spec/ContextApi.tla): operation histories on real Contexts in both directions (see C06); here the mismatches whose name was last written as a function "
+                     "entry (set_func, create_context! with a closure) or whose failing operation is a call / get_func")
+    ctxfam.model_and_replay(run, "C08")
+    ctxfam.trace(run, "C08", "hist", run.seed + 19, 3000 if thorough else 400, 60 if thorough else 40)
     run.exhaustive = False
     run.assumptions += ["two operators of equal precedence and different associativity: grouping unspecified (counted as don't-care)", "results are projected onto marker handler identities",
                         "TLAPS (Zenon / SMT back ends) is trusted for the arithmetic lemmas; TLC, hooks H1/H5 and the encodings for the rest"]
@@ -81,6 +85,8 @@ def check(run):
 
 def replay(path, seed):
     case = json.load(open(path))["case"]
+    if case["family"].startswith("ctxapi"):
+        return ctxfam.replay(path, seed)
     if case["family"] == "engine":
         return eng.replay(path, seed)
     if case["family"] in ("eval", "eval-trace"):
